@@ -164,14 +164,14 @@ def main():
             prev = cur
         t += step
     kinds = ['naive', 'utc', 'offset', 'struct_time', 'nulltz', 'ruletz', 'st_gmtoff',
-             'st_local']
+             'offset_us', 'st_local']
     for i, tr in enumerate(transitions):
         for d in (-3601, -3600, -1, 0, 1, 3599, 3600, 3601):
             s = tr + d
             if 0 <= s <= 2**32 - 1:
                 res['dst_cases'] += 1
                 record({'tz': boot_tz, 'sec': s, 'micro': (i * 7919) % 1000000,
-                        'kind': kinds[(i + d) % 8], 'off': 330})
+                        'kind': kinds[(i + d) % 9], 'off': 330})
     # ---- 1b. fold pairs: every year 1971..2105, both orders
     for year in range(1971, 2106):
         for order in (0, 1):
@@ -184,7 +184,7 @@ def main():
         sec = int.from_bytes(raw[:5], 'big') % 2**32
         case = {'tz': boot_tz, 'sec': sec,
                 'micro': int.from_bytes(raw[5:], 'big') % 1000000,
-                'kind': kinds[i % 7], 'off': (i * 37) % 2879 - 1439}
+                'kind': kinds[i % 8], 'off': (i * 37) % 2879 - 1439}
         r = record(case)
         if r is not None:
             h.update(r[0])
